@@ -27,6 +27,15 @@ def main():
         mod.run_shard(shard, rec)
         status = "done"
         err = None
+        from . import trace as TR
+
+        TR.recheck_recent()
+        rec.count("traces_rechecked_later", 0)
+        if prop in ("C01", "C02", "C07", "C08", "C09", "C11", "C12"):
+            for mu in TR.MUTATIONS:
+                rec.violation("event-changed-after-emission", "held-event",
+                              f"event #{mu['index']} of the decode of {mu['tname']} {mu['data'][:120]} ({mu['args']}) was emitted as {mu['emitted']} and reads {mu['now']} {mu['when']}",
+                              dict(kind="held-event", **mu))
     except Exception:
         status = "harness-error"
         err = traceback.format_exc()
